@@ -15,7 +15,7 @@ ASSUME = ["interpretations: one dimension in {1, 2, 3} per atom name (winding ig
           "meaning (this discharges the 'same denotation' clauses of C05, C06, C07 at model level)",
           "spiders (delta tensors, fusion), bubbles (two entrywise functions) and formal sums of parallel diagrams are evaluated through tensor.Diagram.eval for the swap/box diagrams of the model; object images are single dimensions"]
 CONST = {"quick": {"inv": (2, 3), "dump": (3, 3), "replay": 450, "MaxCC": 2},
-         "thorough": {"inv": (3, 3), "dump": (4, 3), "replay": 20000, "MaxCC": 2}}
+         "thorough": {"inv": (3, 3), "dump": (4, 3), "replay": 3000, "MaxCC": 2}}
 INTERPS = {"Dims23": [[2], [3]], "Dims21": [[2], [1]], "Dims32": [[3], [2]],
            # multi-wire object images (an extension of the claim's "dimension per atomic type"): Dim(2, 2) is its own
            # mirror image so cups exist; Dim(2, 3) is replayed on cup-free diagrams only (the library refuses the cup)
